@@ -672,6 +672,19 @@ class ADEV(Pytree):
                                     primal_outs, tangent_outs = jvp(
                                         flat_primals, canonical_tangents, **params
                                     )
+                                    # A rule may answer with a symbolic zero
+                                    # (ceil, round, sign, stop_gradient, ...):
+                                    # that output has an exactly zero tangent.
+                                    rule_outs = (
+                                        tangent_outs
+                                        if eqn.primitive.multiple_results
+                                        else [tangent_outs]
+                                    )
+                                    static_vars.update(
+                                        id(v)
+                                        for v, t in zip(eqn.outvars, rule_outs)
+                                        if _is_ad_zero(t)
+                                    )
                                 tangent_outs = _instantiate_zero_tangents(tangent_outs)
 
                 if not eqn.primitive.multiple_results:
